@@ -148,9 +148,24 @@ def cases(tier, rng, dist):
     return mark_ff(_cases(tier, rng, dist))
 
 
+_REC = []
+hypergeom_conf_interval = recording(hypergeom_conf_interval, _REC)
+
+
 def run(c):
     ff = fail_first(failing_calls(c)) if "ff" in c else None
     o = _run(c)
     if ff is not None and isinstance(o, dict):
         o["ff"] = ff
+    if isinstance(o, dict):
+        o["retained_changed"] = retained_changed(_REC)
     return o
+
+
+_oracle_before_retention = oracle
+
+
+def oracle(c, o):
+    if isinstance(o, dict) and o.get("retained_changed"):
+        return {"why": "results kept by the caller changed when later calls were made: " + o["retained_changed"], "cls": "hypergeom_conf_interval:result-aliased"}
+    return _oracle_before_retention(c, o)
